@@ -207,6 +207,10 @@ func (p *c02) world(r *core.Rand, sched c02Schedule) (*c02World, error) {
 	for n, s := range tree {
 		w.srcs[n+".twig"] = s
 	}
+	// struct contexts: every render goes through the process-wide attribute cache (hits, misses, stat updates)
+	w.srcs["attrs"] = c02Marker("attrs") + "{{ obj.Name }}|{{ obj.Count }}|{{ pobj.Name }}|{{ obj.Inner.Deep }}|{{ pobj.Label }}|{{ obj.Missing }}|{% for it in objs %}{{ it.Name }}{{ it.Count }},{% endfor %}"
+	w.srcs["attrs2"] = c02Marker("attrs2") + "{% for i in [1, 2, 3] %}{{ obj.Count }}{{ pobj.Count }}{{ other.Title }}{{ other.N }}{% endfor %}{{ other.Upper }}"
+	w.entries = append(w.entries, "attrs", "attrs2")
 	w.entries = append(w.entries, ts.Entries...)
 	for n := range must {
 		w.entries = append(w.entries, n+".twig")
@@ -281,9 +285,29 @@ func (w *c02World) newEngine(sched c02Schedule) *twig.Engine {
 	return e
 }
 
+type c02Inner struct{ Deep string }
+type c02Obj struct {
+	Name  string
+	Count int
+	Inner c02Inner
+}
+
+func (o *c02Obj) Label() string { return "label:" + o.Name }
+
+type c02Other struct {
+	Title string
+	N     int
+}
+
+func (o c02Other) Upper() string { return strings.ToUpper(o.Title) }
+
 func (w *c02World) ctx(k int) map[string]interface{} {
 	m := w.ts.GoCtxVariant(k)
 	m["v"] = fmt.Sprintf("V%d", k)
+	m["obj"] = c02Obj{Name: fmt.Sprintf("obj%d", k), Count: 10 + k, Inner: c02Inner{Deep: "deep"}}
+	m["pobj"] = &c02Obj{Name: fmt.Sprintf("pobj%d", k), Count: 20 + k}
+	m["objs"] = []c02Obj{{Name: "a", Count: 1}, {Name: "b", Count: 2}}
+	m["other"] = c02Other{Title: fmt.Sprintf("title%d", k), N: k}
 	return m
 }
 
